@@ -20,7 +20,8 @@ Mirrors, as the code is now:
 The `Raster` object itself (bands, `collectionValuesGrid`, sequences of `addAFMap` / `addCollectionToRaster` /
 `computeAggregates`) and `summarize` are in `Model/RasterSession.lean`.
 
-Scalars: `α` is any type with the arithmetic used (`Float` and `Rat` in the driver, a floor ring in the theorems);
+Scalars: `α` is any type with the arithmetic used (`Float` and `Rat` in the driver, a floor ring in the theorems, the
+rationals with every operation rounded — `RQ rnd`, `Lemmas/RasterRounded.lean` — in the floating-point theorems);
 `floor`, `ceil : α → Int` are parameters. A feature value is an `Option α`, `none` standing for NaN. -/
 namespace TV.Raster
 variable {α : Type}
